@@ -1,6 +1,7 @@
 import XmppModel.Prelude.Hex
 import XmppModel.Prelude.Xml
 import XmppModel.Model.Encoder
+import XmppModel.Model.SendGuard
 /-! Driver for C05 (see harness/c05 for the line protocol).
 
     tx <entry> <ns> <from|-> <startTok|-> <toks>   -> <status> <canonical wire tokens>
@@ -9,6 +10,11 @@ import XmppModel.Model.Encoder
                                                        k tokens of its element; then Send(next))
     flush <entry> <form>                           -> 1 | 0   (is the element on the connection
                                                        when the call returns)
+    behind <fail|finish|twfail|encfail> <park> <k> <holder toks> <entry> <ns> <from|-> <startTok|-> <toks>
+                                                   -> <first ok|fail> <second ok|broken> <canonical wire>
+                                                       (a Send parked after `park` tokens of its element, stopping after k; the second
+                                                       call queued for the lock; statuses from the SendGuard LTS
+                                                       with the guard under the lock, wire from the encoder model)
     conc <n> <i0,i1,…>                             -> ok | bad   (is the observed order of
                                                        complete blocks a permutation of the calls)
 -/
@@ -35,8 +41,54 @@ def stanzaLine (cfg : Cfg) (k : Kind) (ts : List Tok) : String :=
   | .error .eof => "eof -"
   | .error .wrongKind => "wrongkind -"
 
+/-- the tokens an entry point hands to the session's encoder -/
+def handedToks (entry start : String) (ts : List Tok) : Option (List Tok) :=
+  match entry with
+  | "send" => match sendToks ts with | .ok o => some o | .error _ => none
+  | "sendel" => do
+    let (n, as) ← startOf start
+    pure (sendElementToks n as ts)
+  | "enc" | "tw" | "reply" => some ts
+  | "encel" => do
+    let (n, as) ← startOf start
+    pure (replaceOuter n as 0 ts)
+  | "msg" => match stanzaSendToks .message fresh ts with | .ok o => some o | .error _ => none
+  | _ => none
+
 def handle (args : List String) : Option String :=
   match args with
+  | ["behind", mode, park, k, htoks, entry, ns, from_, start, toks] => do
+    let fr ← if from_ == "-" then some "" else hexDecodeStr from_
+    let cfg : Cfg := ⟨ns, fr⟩
+    let k ← k.toNat?
+    let park ← park.toNat?
+    let hs ← decToks htoks
+    let ts ← decToks toks
+    let us ← handedToks entry start ts
+    let first ← match sendToks hs with | .ok o => some o | .error _ => none
+    -- who is refused: the LTS with the guard under the lock, forced schedule
+    -- (holder takes the lock and writes k items, the second call tries, the holder goes on)
+    let prog : SendGuard.Prog Tok :=
+      { job := fun i => if i = 0 then first else us,
+        failAt := fun i => if i = 0 && mode != "finish" then some k else none,
+        early := fun _ => false }
+    let sched := [0] ++ List.replicate park 0 ++ [1] ++ List.replicate (first.length + 2) 0
+      ++ List.replicate (us.length + 2) 1
+    let fin := SendGuard.run prog (SendGuard.init Tok) sched
+    -- an abandoned token writer (`twfail`) stops inside its element like a failed Send, but its
+    -- Close reports success
+    let s1 ← match fin.pc 0 with
+      | .done => some "ok"
+      | .failed => some (if mode == "twfail" then "ok" else "fail")
+      | _ => none
+    let s2 ← match fin.pc 1 with | .done => some "ok" | .refused => some "broken" | _ => none
+    if !fin.nested.isEmpty then none
+    -- what reaches the wire: the encoder model
+    let handed := if mode != "finish" then first.take k else first
+    let r := faultThenNext true cfg fresh handed handed.length us
+    match r.2 with
+    | .wrote out => if s2 == "ok" then pure s!"{s1} ok {encToks (canon cfg.ns (r.1 ++ out))}" else none
+    | .refused => if s2 == "broken" then pure s!"{s1} broken {encToks (canon cfg.ns r.1)}" else none
   | ["reuse", _ns, _from, holder, ops] => do
     -- handle 0 writes <a/> and is closed; then operations on the closed handle
     let el (n : String) : Tok := .start ⟨"urn:reuse", n⟩ []
